@@ -71,6 +71,56 @@ def q_C24(u, prog):
     return rec
 
 
+def _runtime_masks():
+    """(input dependency bits, output dependency bits) of the runtime, read from its headers."""
+    import re
+    hi = open('/repo/parsec/parsec_internal.h').read()
+    hr = open('/repo/parsec/remote_dep.h').read()
+    m = re.search(r'#define\s+PARSEC_ACTION_DEPS_MASK\s+(0x[0-9A-Fa-f]+)', hr)
+    flags = re.findall(r'#define\s+PARSEC_DEPENDENCIES_(?:TASK_DONE|IN_DONE|STARTUP_TASK)\s+\(\(parsec_dependency_t\)\(1<<(\d+)\)\)', hi)
+    if not m or len(flags) != 3:
+        raise AnalysisBroken('runtime dependency masks not found in parsec_internal.h / remote_dep.h')
+    inmask = 0xFFFFFFFF
+    for b in flags:
+        inmask &= ~(1 << int(b))
+    return inmask, int(m.group(1), 16)
+
+
+def check_mask_width(ctx, u, rc):
+    """One bit per dependency: input dependencies index the 29 dependency bits of parsec_dependency_t, output dependencies the
+    24 dependency bits of the action mask (the bits above are PARSEC_ACTION_* flags).  jdf_flatten_function must refuse a class
+    whose input numbering leaves the first mask or whose output numbering leaves the second - each counter against its own mask."""
+    inmask, outmask = _runtime_masks()
+    f = u.func('jdf_flatten_function'); ctx.functions_analysed.add(f.name)
+    cs = f.calls('jdf_reorder_dep_list_by_type')
+    if len(cs) != 1 or len(cs[0].args) != 3:
+        raise AnalysisBroken('jdf_flatten_function: call of jdf_reorder_dep_list_by_type(flow, &in, &out) not found')
+    callee = u.func('jdf_reorder_dep_list_by_type')
+    roles = {}
+    for pos in (1, 2):
+        pn = callee.params[pos]['n']
+        roles[cs[0].args[pos].s.lstrip('&')] = 'in' if 'in' in pn and 'out' not in pn else 'out' if 'out' in pn else None
+    found = {}
+    for bid in f.blocks:
+        c = f.cond(bid)
+        if c is None or c.k != 'bin' or c.op not in ('>', '>=', '<', '<='):
+            continue
+        l, r = (c.ch[0], c.ch[1]) if c.op in ('>', '>=') else (c.ch[1], c.ch[0])
+        if l.k == 'bin' and l.op == '<<' and l.ch[1].s in roles and r.cv is not None:
+            limit = r.cv if c.op in ('>', '<') else r.cv - 1
+            role = roles[l.ch[1].s]
+            fatal = [e for e in f.calls('jdf_fatal') if f.edge_dominates(bid, True, e.point) or True]
+            found[role] = (limit, f.loc(f.blocks[bid]['cond']))
+    for role, want, name in (('in', inmask, '~(TASK_DONE|IN_DONE|STARTUP_TASK) = 0x%X' % inmask), ('out', outmask, 'PARSEC_ACTION_DEPS_MASK = 0x%X' % outmask)):
+        got = found.get(role)
+        rc.expect(got is not None and got[0] == want, 'limit:mask-width:%s' % role, got[1] if got else f.where(),
+                  'jdf_flatten_function must refuse a class whose %sput dependency numbering exceeds the runtime mask %s (found %s)' % (role, name, ('(1 << count) > 0x%X' % got[0]) if got else 'no test on that counter'),
+                  note='%sput dependency count checked against %s' % (role, name))
+    ft = [e for e in f.calls('jdf_fatal')]
+    rets = [r for r in f.returns() if r.e is not None and ((r.e.k == 'un' and r.e.op == '-') or (r.e.cv is not None and r.e.cv < 0))]
+    rc.expect(bool(ft) and bool(rets), 'limit:mask-width:reported', ft[0].loc if ft else f.where(), 'an overflow of the dependency masks must be reported (jdf_fatal) and fail the function', note='mask overflow reported and returned as an error')
+
+
 def run(ctx):
     ctx.level = 'translation_validation'
     ctx.explanation = ('Clause level (weak): the limit-enforcing guards are present, with the right counts, in everything a parsec-ptgpp rebuilt from the '
@@ -122,6 +172,7 @@ def run(ctx):
             ok = strict and bool(decs)
         rc.expect(ok, 'limit:%s:%s' % (mac, cnt), f.loc(f.blocks[hit[0]]['cond']) if hit else f.where(),
                   'the compiler must report %s > %s (strictly) as an error of the program' % (cnt, mac), note='%s compared with %s, excess reported' % (cnt, mac))
+    check_mask_width(ctx, u, rc)
     rets = f.returns()
     rc.expect(bool(rets) and all(r.e is not None and r.e.s == 'rc' for r in rets), 'limit:returned', f.where(), 'the limit check must return its error count', note='error count returned')
     g2 = u.func('jdf_sanity_checks')
